@@ -14,7 +14,7 @@ SPECS = {
         nontrivial_ops=["s_push", "s_push_str", "s_pop", "s_insert", "s_insert_str", "s_remove", "s_truncate", "s_clear", "s_retain",
                         "s_drain", "s_replace_range", "s_split_off", "s_extend_chars", "s_extend_strs", "s_clone", "s_write", "s_format",
                         "s_into_bump_str", "s_from_iter", "d_lossy", "d_utf8", "d_utf16"],
-        decoders=True, thorough_scale=20, trusted_extra=STR_TRUSTED,
+        decoders=True, thorough_scale=60, trusted_extra=STR_TRUSTED,
         explanation="Theorems about the Lean model of string.rs / str/lossy.rs (validity invariant, refinement to List Char, panic conditions, "
                     "lossy decoder) + differential run: bumpalo String vs std String vs the model on generated programs, decoders vs std on all "
                     "byte strings of length <= 3 and structured longer ones.",
@@ -27,7 +27,7 @@ SPECS = {
         fields=["res", "bytes", "len"], ops=["s_retain"],
         nontrivial_ops=["s_retain"],
         str_jobs=[("retain", 200, 50), ("sweep", 12, 0), ("general", 60, 50)],
-        decoders=False, thorough_scale=20, trusted_extra=STR_TRUSTED,
+        decoders=False, thorough_scale=60, trusted_extra=STR_TRUSTED,
         explanation="Theorems: String::retain as the source has it (drop guard detected by the translator) leaves valid UTF-8 for every "
                     "closure answer list and every panic index, and every program continuing after such panics stays valid; without the guard "
                     "the statement is false (counterexample = F6 of 3.17.0).  Run: retain with a panic injected at every closure index; "
@@ -41,7 +41,7 @@ SPECS = {
         fields=["res", "len", "capge"],
         nontrivial_ops=["s_with_cap", "s_reserve", "s_push", "s_push_str", "s_insert", "s_insert_str", "s_extend_chars", "s_extend_strs", "s_write"],
         str_jobs=[("build", 160, 50), ("general", 120, 50)],
-        decoders=False, thorough_scale=20, trusted_extra=STR_TRUSTED,
+        decoders=False, thorough_scale=60, trusted_extra=STR_TRUSTED,
         explanation="Theorem reserved_capacity_honoured (RawVec level: a growing call whose result fits the capacity does not reallocate) + run: "
                     "capacity() and as_ptr() of the bumpalo String before/after every growing call whose resulting length fits the old "
                     "capacity must be unchanged (oracle string-moved-within-capacity), with multi-byte pushes at every distance from the end "
